@@ -435,6 +435,10 @@ def fixed_kwargs(call):
 
 @rule('C15.t', ['C15'], floor=60)
 def forwarding_table(ctx):
+    _table(ctx)
+
+
+def _table(ctx, only=None):
     """For every client call of the package: the keys of **<extra args> (the entry's
     allow-list pushed through the filters on the way) plus the fixed keywords must all
     be members of the operation's input shape (no-unknown), and every allowed argument
@@ -456,7 +460,7 @@ def forwarding_table(ctx):
         sites.append((entry, mode, op, f, c, set(fwd), set(fwd if must is None else must)))
 
     for f, c, op in q.client_calls(ctx):
-        if op not in OPS or f.module.name == 'crt':
+        if op not in OPS or f.module.name == 'crt' or (only is not None and op not in only):
             continue
         stars = star_kwargs(c)
         in_task_main = f.cls is not None and f.cls.is_subclass_of(task) and not f.cls.is_subclass_of(subm) and f.name == '_main'
@@ -497,7 +501,7 @@ def forwarding_table(ctx):
                 raise AnalysisError(f'cannot evaluate ** of {short(c, 60)} in {f.qualname}: {e}')
             add(entry, f.qualname, op, f, c, fwd, must)
     # failure-cleanup aborts (method value, kwargs given to add_failure_cleanup)
-    for f, n in q.client_refs(ctx, 'abort_multipart_upload'):
+    for f, n in (q.client_refs(ctx, 'abort_multipart_upload') if only is None or 'abort_multipart_upload' in only else []):
         par = n._parent
         if isinstance(par, ast.Call) and par.args and par.args[0] is n:
             for s in q.submits(ctx):
@@ -515,7 +519,7 @@ def forwarding_table(ctx):
                             fwd |= s2
                             must |= m2
                         sites.append((entry0, owner.qualname, 'abort_multipart_upload', f, par, fwd, must))
-    ctx.need(len(sites) >= 20, f'only {len(sites)} operation sites found')
+    ctx.need(len(sites) >= (20 if only is None else 3), f'only {len(sites)} operation sites found')
     # allow-lists per entry
     entries = {}
     for entry, mode, op, f, c, fwd, must in sites:
@@ -543,6 +547,11 @@ def forwarding_table(ctx):
             seen.add(key)
             cells += 1
             label = f'[{entry.split(".")[-1]} / {mode.split(".")[-1]}] {op} <- {a}'
+            if only is not None:
+                # restricted use (C05.f): only "is every forwarded argument known to the operation"
+                if a in fwd:
+                    ctx.ob(f, label, a in shape, f'{a} is forwarded to {OPS[op]} which has no parameter of that name: botocore rejects the request before it is sent')
+                continue
             if a in fwd and a not in shape:
                 ctx.ob(f, label + ' (unknown to the operation)', False, f'{a} is forwarded to {OPS[op]} which has no parameter of that name (botocore rejects the request)')
             elif a in A and a in shape and a not in must and a not in fixed:
@@ -554,6 +563,8 @@ def forwarding_table(ctx):
             else:
                 ctx.ob(f, label, True, 'forwarded' if a in fwd else 'not applicable to this operation', trivial=(a not in fwd))
     ctx.extra['cells'] = cells
+    if only is not None:
+        return
     # allow-list members must be known to at least one operation of their entry
     for entry, A in entries.items():
         ops_of = {op for e, m, op, f, c, fwd, must in sites if e == entry}
@@ -718,10 +729,34 @@ def checksum_rules(ctx):
     d = ctx.func('utils.set_default_checksum_algorithm')
     rets = [n for n in own_nodes(d.node) if isinstance(n, ast.Return)]
     sd = [c for c in own_calls(d.node) if isinstance(c.func, ast.Attribute) and c.func.attr == 'setdefault']
-    ok = bool(rets) and any('FULL_OBJECT_CHECKSUM_ARGS' in t_ and pol for r in rets for t_, pol in q.guard_texts(r)) and len(sd) == 1 \
+    ep = d.params[0] if d.params else 'extra_args'
+
+    def _full_object_test(e):
+        # any(c in extra_args for c in FULL_OBJECT_CHECKSUM_ARGS), or the set forms of the same test
+        if isinstance(e, ast.Call) and norm(e.func) == 'any' and len(e.args) == 1 and isinstance(e.args[0], (ast.GeneratorExp, ast.ListComp)) and len(e.args[0].generators) == 1:
+            ge = e.args[0].generators[0]
+            el = e.args[0].elt
+            return norm(ge.iter) == 'FULL_OBJECT_CHECKSUM_ARGS' and not ge.ifs and isinstance(el, ast.Compare) and len(el.ops) == 1 and isinstance(el.ops[0], ast.In) \
+                and norm(el.left) == norm(ge.target) and norm(el.comparators[0]) == ep
+        t_ = norm(e)
+        return t_ in (f'set(FULL_OBJECT_CHECKSUM_ARGS) & set({ep})', f'set({ep}) & set(FULL_OBJECT_CHECKSUM_ARGS)', f'set(FULL_OBJECT_CHECKSUM_ARGS).intersection({ep})',
+                      f'set({ep}).intersection(FULL_OBJECT_CHECKSUM_ARGS)')
+
+    def _exact_guard(r):
+        gs = q.guards(r)
+        if len(gs) != 1 or not gs[0][1]:
+            # the not-disjoint form: `if not set(A).isdisjoint(B): return`
+            return len(gs) == 1 and not gs[0][1] and norm(gs[0][0]) in (f'set(FULL_OBJECT_CHECKSUM_ARGS).isdisjoint({ep})', f'set({ep}).isdisjoint(FULL_OBJECT_CHECKSUM_ARGS)')
+        e = gs[0][0]
+        lp = q.in_loop(r)
+        if isinstance(lp, ast.For) and norm(lp.iter) == 'FULL_OBJECT_CHECKSUM_ARGS':
+            return isinstance(e, ast.Compare) and len(e.ops) == 1 and isinstance(e.ops[0], ast.In) and norm(e.left) == norm(lp.target) and norm(e.comparators[0]) == ep
+        return _full_object_test(e)
+    ok = bool(rets) and all(_exact_guard(r) for r in rets if r.value is None) and any(r.value is None for r in rets) and len(sd) == 1 \
         and norm(sd[0].args[0]) == "'ChecksumAlgorithm'" and norm(sd[0].args[1]) == 'DEFAULT_CHECKSUM_ALGORITHM' and not [x for x in q.guards(sd[0]) if x[1]]
     ctx.ob(d, "return if a full-object checksum is given else setdefault('ChecksumAlgorithm', DEFAULT_CHECKSUM_ALGORITHM)", ok,
-           'the default algorithm must not override a user-supplied full-object checksum or algorithm')
+           'the default algorithm must not override a user-supplied full-object checksum or algorithm, and nothing else may suppress it '
+           '(the early return must be taken exactly when one of FULL_OBJECT_CHECKSUM_ARGS is supplied)')
     imp = ctx.p.modules['utils'].imports.get('DEFAULT_CHECKSUM_ALGORITHM')
     ctx.ob('utils', 'DEFAULT_CHECKSUM_ALGORITHM comes from botocore.httpchecksum', imp is not None and 'botocore.httpchecksum' in imp[0], f'{imp}')
     m = ctx.func('manager.TransferManager._add_operation_defaults')
